@@ -26,7 +26,7 @@ func init() {
 		Assumptions: []string{"payload expectations come from REF-LINEAR (see C01)", "fork-free chain; only cursors of final blocks are used, as the property states"},
 		Cases: func(tier, mode string) int {
 			if tier == "thorough" {
-				return 1200
+				return 2400
 			}
 			return 64
 		},
